@@ -91,7 +91,8 @@ def build():
                        ("is_collection", "is_coll(type_)"), ("is_mutable_collection", "is_mut(type_)"),
                        ("is_optional", "kind(type_) == K_UNION and union_has_none(type_)")):
         A(Contract(f"{TM_}:{name}", params={"type_": "Ty"}, returns="bool", trusted=True, trusted_reason=why, props=P, ensures=[f"result == ({cond})"]))
-    A(Contract(f"{TM_}:unwrap_newtype", params={"type_": "Ty"}, returns="Ty", trusted=True, trusted_reason=why, props=P,
+    A(Contract(f"{TM_}:unwrap_newtype", params={"type_": "Ty"}, returns="Ty", trusted=True, props=P,
+               trusted_reason="callee summary; proved in contracts.typing_area as unwrap_newtype#body against the kind model (isinstance(t, NewType) is kind == NEWTYPE, t.__supertype__ is inner(t))",
                ensures=["implies(kind(type_) == K_NEWTYPE, result == inner(type_))", "implies(kind(type_) != K_NEWTYPE, result == type_)"]))
     A(Contract("typing:get_args", params={"tp": "Ty"}, returns="Seq[Ty]", trusted=True, trusted_reason=why, props=P, ensures=["result == args(tp)"]))
     REASONS = ["OK", "OPT_IN_SEQ", "MUT_SEQ", "NON_NODE_TYPE", "EMPTY_TUPLE", "OTHER"]
